@@ -82,6 +82,12 @@ func ptLens(thorough bool) []int {
 	for _, n := range []int{65535, 65536, 65537, 70001} {
 		set[n] = true
 	}
+	// k*256 + the small lengths the assembly branches on (width-truncation classes)
+	for _, base := range []int{256, 512, 768, 1024, 1280, 1536, 1792, 2048, 4096, 8192, 65536} {
+		for _, d := range []int{0, 1, 12, 13, 14, 15, 16, 17, 31, 32, 33} {
+			set[base+d] = true
+		}
+	}
 	var out []int
 	for n := range set {
 		out = append(out, n)
@@ -98,6 +104,38 @@ func adLens() []int {
 	return append(out, 47, 48, 49, 63, 64, 65, 255, 256, 257, 600)
 }
 
+// extAdLens: every "special small length + k*256" and the other width-truncation classes of the
+// AD length ({0,1,12,13,14,16} + {256,512,768,4096,65536}, 255..257, 511..513, 65535..65537) that
+// are not in adLens. They are run against extPtLens (plaintext length classes incl. 0).
+func extAdLens() []int {
+	have := map[int]bool{}
+	for _, n := range adLens() {
+		have[n] = true
+	}
+	var out []int
+	add := func(n int) {
+		if !have[n] {
+			have[n] = true
+			out = append(out, n)
+		}
+	}
+	for _, base := range []int{256, 512, 768, 4096, 65536} {
+		for _, d := range []int{0, 1, 12, 13, 14, 16} {
+			add(base + d)
+		}
+	}
+	for _, n := range []int{255, 257, 511, 513, 65535, 65537} {
+		add(n)
+	}
+	sort.Ints(out)
+	return out
+}
+
+func extPtLens() []int {
+	return []int{0, 1, 12, 13, 14, 15, 16, 17, 31, 32, 33, 63, 64, 65, 128, 129, 192, 193, 256, 269, 272, 320, 321, 512, 525, 528, 768, 781,
+		1024, 1037, 4096, 4109, 4112, 65536, 65549, 65552}
+}
+
 type variant struct {
 	name  string
 	nonce int
@@ -106,12 +144,13 @@ type variant struct {
 
 func run(c *vf.Ctx) {
 	pls, als := ptLens(c.Thorough), adLens()
-	c.Rule(fmt.Sprintf("full grid path{asm(AVX2),generic} x {New,NewX} x %d plaintext lengths (every 0..%d, every k*64-1/k*64/k*64+1 to 8192, k*16-1/k*16/k*16+1 to 2048, 65535..65537, 70001) x "+
-		"%d AD lengths (every 0..33 incl. 13; 47..49, 63..65, 255..257, 600) x dst{nil,prefix+spare,prefix+capacity-1,prefix+exact (only the middle two above 1024 bytes; thorough: above 2048), IN PLACE Seal(plaintext[:0]) / Open(ciphertext[:0]) with exact capacity at every length and with spare capacity up to the same bound (quick: up to 320 bytes), inputs copied per call} x value classes (key,nonce,plaintext,AD drawn diagonally from the alphabet; quick: all-zero, ascending, 2 seeded; thorough: all 4 fixed + 4 seeded); "+
+	eals, epls := extAdLens(), extPtLens()
+	c.Rule(fmt.Sprintf("full grid path{asm(AVX2),generic} x {New,NewX} x %d plaintext lengths (every 0..%d, every k*64-1/k*64/k*64+1 to 8192, k*16-1/k*16/k*16+1 to 2048, k*256+{0,1,12..17,31..33} for k*256 in {256..2048,4096,8192,65536}, 65535..65537, 70001) x "+
+		"%d AD lengths (every 0..33 incl. 13; 47..49, 63..65, 255..257, 600) [and, against %d plaintext length classes 0..65552, the %d width-truncation AD lengths {0,1,12,13,14,16}+{256,512,768,4096,65536}, 511..513, 65535..65537] x dst{nil,prefix+spare,prefix+capacity-1,prefix+exact (only the middle two above 1024 bytes; thorough: above 2048), IN PLACE Seal(plaintext[:0]) / Open(ciphertext[:0]) with exact capacity at every length and with spare capacity up to the same bound (quick: up to 320 bytes), inputs copied per call} x value classes (key,nonce,plaintext,AD drawn diagonally from the alphabet; quick: all-zero, ascending, 2 seeded; thorough: all 4 fixed + 4 seeded); "+
 		"each point: Seal == dst||RFC-model ciphertext||tag, Open(that) == dst||plaintext, inputs unmodified; non-trivial = distinct (path,variant,ptLen,adLen) with ptLen>=1; "+
 		"plus the STEERED-ACCUMULATOR family: for {New,NewX} x ciphertext lengths %v x AD lengths %v, messages crafted with math/big (one free 16-byte ciphertext block solved, nonce/filler varied) so that the AEAD's own Poly1305 accumulator, "+
 		"right before the lengths block and right before the final reduction, has low limb in {0,1,2^64-adLen-1,2^64-adLen,2^64-1,2^64-5,2^64-6} x middle limb {0,2^64-1} x top limb {0..3}, or equals 0..4, p-5..p+4, 2^130..2^130+4; sealed and opened (nil and in-place dst) on both paths; "+
-		"oracle = verif/ref/aeadref (plain block function + math/big Poly1305, RFC KATs)", len(pls), map[bool]int{false: 1024, true: 8192}[c.Thorough], len(als), aeadsteer.Lens, aeadsteer.ADLens))
+		"oracle = verif/ref/aeadref (plain block function + math/big Poly1305, RFC KATs)", len(pls), map[bool]int{false: 1024, true: 8192}[c.Thorough], len(als), len(epls), len(eals), aeadsteer.Lens, aeadsteer.ADLens))
 	c.Assume("math/big arithmetic is correct; values outside the alphabet are not enumerated; Poly1305 carry corner cases inside the AEAD code are reached through crafted messages for the listed accumulator targets only (limb values of intermediate blocks are not steered)")
 	c.Assume("the amd64 assembly is exercised on this CPU's feature set only")
 
@@ -125,7 +164,7 @@ func run(c *vf.Ctx) {
 	}
 	nClasses := 4 + nSeeded
 	keys := c.ValueClasses("c01-key", 32, nSeeded)
-	maxPt, maxAd := pls[len(pls)-1], als[len(als)-1]
+	maxPt, maxAd := pls[len(pls)-1], eals[len(eals)-1]
 	ptC := c.ValueClasses("c01-pt", maxPt, nSeeded)
 	adC := c.ValueClasses("c01-ad", maxAd, nSeeded)
 	nonces := map[int][][]byte{12: c.ValueClasses("c01-nonce", 12, nSeeded), 24: c.ValueClasses("c01-nonce", 24, nSeeded)}
@@ -143,8 +182,18 @@ func run(c *vf.Ctx) {
 		pre[i] = vc{aeadref.Encrypt(key, nonce, ptC[(ci+1)%nClasses]), aeadref.PolyKey(key, nonce)}
 	})
 
-	type unit struct{ v, ci, an int }
+	type unit struct {
+		v, ci, an int
+		ext       bool // extended AD length: reduced plaintext-length set, two value classes, three dst modes
+	}
 	var units []unit
+	for _, an := range eals {
+		for v := range variants {
+			for _, ci := range []int{3, 4} {
+				units = append(units, unit{v, ci, an, true})
+			}
+		}
+	}
 	for _, an := range als {
 		for v := range variants {
 			for ci := 0; ci < nClasses; ci++ {
@@ -153,7 +202,7 @@ func run(c *vf.Ctx) {
 				if !c.Thorough && (ci == 1 || ci == 2) {
 					continue
 				}
-				units = append(units, unit{v, ci, an})
+				units = append(units, unit{v, ci, an, false})
 			}
 		}
 	}
@@ -205,7 +254,11 @@ func run(c *vf.Ctx) {
 			sealed := make([]byte, 0, maxPt+16)
 			ipbuf := make([]byte, maxPt+16+9) // in-place modes: the input is copied here for every call
 			var evals int
-			for _, n := range pls {
+			lens := pls
+			if u.ext {
+				lens = epls
+			}
+			for _, n := range lens {
 				// long inputs: the fixed classes 0..2 add nothing over ascending+seeded there
 				if n > 2048 && u.ci < 3 {
 					continue
@@ -213,7 +266,7 @@ func run(c *vf.Ctx) {
 				plain := plainAll[:n:n]
 				ct := p.ct[:n]
 				tag := tagger.Tag(n)
-				if n%257 == 0 || n == 70001 {
+				if n%257 == 0 || n == 70001 || (u.ext && (n == 13 || n == 4109)) {
 					// model self-check: incremental evaluation == from-scratch model
 					if full := aeadref.Seal(key, nonce, plain, ad); !bytes.Equal(full[:n], ct) || !bytes.Equal(full[n:], tag[:]) {
 						panic("harness: incremental reference model disagrees with the one-shot model")
@@ -221,6 +274,9 @@ func run(c *vf.Ctx) {
 				}
 				want = append(append(want[:0], ct...), tag[:]...)
 				for dm := 0; dm < nDst; dm++ {
+					if u.ext && dm != dstSpare && dm != dstShort && dm != dstInPlace {
+						continue
+					}
 					// quick tier, long inputs: one allocating and one in-place dst mode (the two
 					// branches of the append logic); nil and exact-capacity repeat those branches
 					if (n > 1024 && !c.Thorough || n > 2048) && (dm == dstNil || dm == dstExact || dm == dstInPlaceSpare) {
